@@ -161,6 +161,13 @@ def named_shapes(n):
         out['ring%d+selfsame' % n] = ring + [(0, 0, True, True)]
         # an outside owner that has adopted a member of a ring (it is not part of the cycle itself)
         out['owner-of-ring%d' % (n - 1)] = [R(0, 1)] + [R(1 + i, 1 + (i + 1) % (n - 1)) for i in range(n - 1)]
+    if n >= 3:
+        # groups one of whose members has adopted a leaf (an object that adopts nothing and may be held from outside)
+        m = n - 1
+        rg = [R(i, (i + 1) % m) for i in range(m)]
+        out['ring%d+leaf' % m] = rg + [R(0, m)]
+        out['ring%d-all-selfsame+leaf' % m] = rg + [(i, i, True, True) for i in range(m)] + [R(0, m)]
+        out['ring%d-all-selfclone+leaf' % m] = rg + [(i, i, True, False) for i in range(m)] + [R(0, m)]
     if n >= 4:
         # two rings sharing member 0: 0-1 and 0-2-3
         out['tworings%d' % n] = [R(0, 1), R(1, 0), R(0, 2), R(2, 3), R(3, 0)]
